@@ -157,6 +157,38 @@ func runC09(c *Ctx) {
 	if nRD < 2 {
 		c.undecided(rule1b, "ReadData call sites", "-", fmt.Sprintf("%d found, expected client and server", nRD))
 	}
+	// ---------- O-1d bytes enter the stream in arrival order ----------
+	// a write into an io.Pipe that feeds ReadData is issued by the data-channel callback itself, never
+	// from a goroutine spawned per message (the scheduler would then decide the order of the bytes)
+	{
+		rule1d := "O-1d bytes enter the receive pipe in arrival order"
+		nW := 0
+		for _, fn := range p.FnsIn("client/lib", "proxy/lib") {
+			for _, ci := range callsTo(fn, "(*io.PipeWriter).Write") {
+				nW++
+				spawned := false
+				for f := fn; f != nil && !spawned; f = f.Parent() {
+					for _, mc := range p.closureSites[f] {
+						if mc.Referrers() == nil {
+							continue
+						}
+						for _, r := range *mc.Referrers() {
+							if g, isGo := r.(*ssa.Go); isGo && g.Call.Value == ssa.Value(mc) {
+								// a goroutine started from inside another closure (a callback): per event
+								if g.Parent().Parent() != nil {
+									spawned = true
+								}
+							}
+						}
+					}
+				}
+				c.check(!spawned, rule1d, p.FnName(fn)+" writes received bytes into the pipe synchronously", p.instrPos(ci), "", "the pipe write runs in a goroutine started per callback invocation: two messages that arrive back to back can enter the byte stream in either order, and ReadData decodes garbage")
+			}
+		}
+		if nW == 0 {
+			c.okTrivial(rule1d, "PipeWriter.Write sites in client/lib and proxy/lib", "-", "none")
+		}
+	}
 	// ---------- O-1c every chunk is delivered; a failed decode ends the stream ----------
 	rule1c := "O-1c one chunk per delivery, no resynchronisation"
 	for _, fn := range p.FnsIn() {
@@ -174,7 +206,7 @@ func runC09(c *Ctx) {
 			okErr := len(okE) > 0
 			var wpath []*ssa.BasicBlock
 			for i, sb := range cc.Block().Succs {
-				if isCut[Edge{cc.Block(), i}] {
+				if isCut[Edge{From: cc.Block(), Idx: i}] {
 					continue
 				}
 				if pth := psSearch(sb, okE, nil, func(b *ssa.BasicBlock) bool { return b == cc.Block() }); pth != nil {
@@ -471,6 +503,40 @@ func (c *Ctx) checkPrefixTables(rd *ssa.Function) {
 		}
 		if len(edges) == 0 || reachableWithout(rd, r, edges) != nil {
 			K = -1
+		}
+		// the counter starts at 0 for every chunk: its initialisation lies inside the per-chunk loop
+		// (hoisted out of it, prefix bytes are counted across the padding chunks one call skips)
+		for _, e := range edges {
+			iff := e.From.Instrs[len(e.From.Instrs)-1].(*ssa.If)
+			a, _ := normCond(iff.Cond)
+			for _, v := range []ssa.Value{a.X, a.Y} {
+				ph, ok := v.(*ssa.Phi)
+				if !ok {
+					continue
+				}
+				seenP := map[*ssa.Phi]bool{}
+				perChunk, found := true, false
+				var walk func(ph *ssa.Phi)
+				walk = func(ph *ssa.Phi) {
+					if seenP[ph] {
+						return
+					}
+					seenP[ph] = true
+					for i, in := range ph.Edges {
+						if k, okk := constInt(in); okk && k == 0 {
+							found = true
+							if !inCycle(ph.Block().Preds[i]) {
+								perChunk = false
+							}
+						}
+						if p2, okp := in.(*ssa.Phi); okp {
+							walk(p2)
+						}
+					}
+				}
+				walk(ph)
+				c.check(found && perChunk, rule2, "the prefix-length counter restarts at 0 for every chunk", p.instrPos(iff), "initialised inside the chunk loop", "the counter of continuation bytes is initialised outside the per-chunk loop: the limit of three prefix bytes is counted across skipped padding chunks and a valid stream is rejected with ErrTooLong")
+			}
 		}
 		// the bound is tested before the next prefix byte is consumed: from the
 		// counter's loop header the continuation read is reachable only over the
